@@ -52,6 +52,12 @@ var contents = map[string]map[string]string{
 	"Z6": {"code/router": "version X\n", "code/ipv6/router": "v6 2\n"},
 	"O6": {"code/ipv6/router": "v6 1\n"},
 	"XE": {"code/router": "version X\n", "code/router.raw": ""},
+	// differ from X / X6 only in a file of the ipv4/ sub-directory resp. in the raw file of ipv6/
+	"V4": {"code/router": "version X\n", "code/ipv4/router": "v4 1\n"},
+	// IPv6-only device: its raw file lives in code/, two versions of it
+	"O6R": {"code/ipv6/router": "v6 1\n", "code/router.raw": "raw 1\n"},
+	"O6S": {"code/ipv6/router": "v6 1\n", "code/router.raw": "raw 2\n"},
+	"R6": {"code/router": "version X\n", "code/ipv6/router": "v6 1\n", "code/ipv6/router.raw": "raw6 1\n"},
 }
 
 var base = time.Date(2024, 1, 1, 0, 0, 0, 0, time.UTC)
